@@ -42,6 +42,11 @@ def plans_core(prop, tier, seed):
                       consts=base_consts(NR=3, Writer0=[1, 2, 1], MaxE=5 if q else 6, MaxOps=6 if q else 7,
                                          ForkOn={2, 3}, ForkModes={"copy", "live"}),
                       max_scripts=25000 if q else 300000))
+    # two replicas only, exhaustively: a log rebuilt from the other's entries, then both sides keep appending (longer histories
+    # than the three-replica plan reaches unsampled: the entry index of the copy outgrows the capacity it was copied with)
+    plans.append(dict(name="exhFork2", consts=base_consts(NR=2, Writer0=[1, 2], Lid=["X"] * 2, Denied=[set()] * 2, MaxE=6, MaxOps=7 if q else 8,
+                                                         ForkOn={2}),
+                      max_scripts=40000 if q else 400000))
     # replicas read back from the store by each loader (from entries, a JSON snapshot, an entry hash, a manifest)
     plans.append(dict(name="exhLoad", consts=base_consts(NR=3, Writer0=[1, 2, 1], MaxE=4 if q else 5, MaxOps=5 if q else 6,
                                                         Fn="HASH" if seed % 2 else "LWW", ForkOn={3},
